@@ -63,6 +63,11 @@ LET = {
     "Loss": (lambda h: ops.LossChannel(0.6), 1, ALL, False),
     "MX(sel)": (lambda h: ops.MeasureHomodyne(0.0, select=0.3 * s_of(h)), 1, ALL, True),
     "MP(sel)": (lambda h: ops.MeasureHomodyne(PI / 2, select=-0.2 * s_of(h)), 1, (G, B), True),
+    # the module-level shorthand objects: ONE instance shared by every program and every hbar of this process
+    "MeasureX": (lambda h: ops.MeasureX, 1, ALL, True),
+    "MeasureP": (lambda h: ops.MeasureP, 1, (G, B), True),
+    # feed-forward of a sampled outcome (position units on both sides)
+    "X(q0.par)": (lambda h: None, 2, (G, B), True),
 }
 
 
@@ -84,10 +89,17 @@ def execute(backend, seq, h, n=2):
             warnings.simplefilter("ignore")
             with prog.context as q:
                 for lab, modes in seq:
-                    LET[lab][0](h) | tuple(q[m] for m in modes)
+                    if lab == "X(q0.par)":
+                        ops.Xgate(q[modes[0]].par) | q[modes[1]]
+                    else:
+                        LET[lab][0](h) | tuple(q[m] for m in modes)
             eng = sf.Engine(backend, backend_options={"cutoff_dim": CUT} if backend == F else None)
-            st = eng.run(prog).state
+            result = eng.run(prog)
+            st = result.state
             out = observe(backend, st, h) if n == 2 else observe1(backend, st, h)
+            smp = np.asarray(result.samples)
+            if smp.size:
+                out[("samples/s",)] = np.real(np.asarray(smp, dtype=complex)).ravel() / s_of(h)
     finally:
         sf.hbar = old
     return out
